@@ -258,6 +258,16 @@ def r_create_domain(ck: Checker) -> None:
     ok = outer is not None and unparse(outer.iter).replace(" ", "") == f"collect_ast({cdc.params()[1]},'SymbolicAtom')"
     ck.add("domain rules are emitted for EVERY symbolic atom of a condition (also inside conditional literals and aggregates)", ok, cdc, rec[0], f"iterates `{unparse(outer.iter) if outer is not None else None}`",
            "a domain predicate used in a condition but never defined is empty: the domain of the depending predicate collapses")
+    # the predicate whose domain rules are emitted is the one whose DOMAIN predicate the atom is: name and arity
+    picks = [c for c in attr_calls(cdc, "append") if enclosing_loop(cdc, c) is not None and "self.domains.items()" in unparse(enclosing_loop(cdc, c).iter)]  # type: ignore[union-attr]
+    ck.need(len(picks) == 1, "__create_domain_for_condition looks the original predicate up in self.domains")
+    lpk = enclosing_loop(cdc, picks[0])
+    kv = [unparse(e) for e in lpk.target.elts] if isinstance(lpk.target, ast.Tuple) and len(lpk.target.elts) == 2 else ["?", "?"]  # type: ignore[union-attr]
+    sym_txts = [t for st_ in itc.states(picks[0]) for t in [itc.text(ast.Name("symbol", ast.Load()), st_)]]
+    want_eq = [f"{kv[1]} == Predicate({s}.name, len({s}.arguments))" for s in set(sym_txts) | {"symbol"}]
+    okp = unparse(picks[0].args[0]) == kv[0] and any(itc.holds(picks[0], w) for w in want_eq)
+    ck.add("the original predicate is found by the atom's name AND arity", okp, cdc, picks[0], f"`{short(unparse(picks[0]), 50)}` dominated by `{kv[1]} == Predicate(symbol.name, len(symbol.arguments))`: {okp}",
+           "`__dom_skill/2` and `__dom_skill/3` share a name: a look-up by name emits the rules of the wrong predicate and leaves the other domain predicate without any rule (empty domain, the chain collapses)")
     hd = ck.func(f"{DP}.has_domain")
     rets = returns_of(hd)
     ck.add("has_domain = static or a domain was computed", len(rets) == 1 and unparse(rets[0].value).replace(" ", "") == f"self.is_static({hd.params()[1]})or{hd.params()[1]}inself.domains", hd, hd.node, f"`{fmt(rets[0]) if rets else None}`", "")  # type: ignore[arg-type]
@@ -299,6 +309,6 @@ RULES = [
     Rule("C20.nonstatic", P + ("C03",), r_nonstatic),
     Rule("C20.accept", P + ("C12", "C13"), r_accept),
     Rule("C20.TEMPLATE.next", P + ("C12", "C13"), r_next_template),
-    Rule("C20.create-domain", P, r_create_domain),
-    Rule("C20.compute-domains", P, r_compute_domains),
+    Rule("C20.create-domain", P + ("C12", "C13"), r_create_domain),
+    Rule("C20.compute-domains", P + ("C12", "C13"), r_compute_domains),
 ]
